@@ -102,7 +102,9 @@ def theorems_in(mod):
         if m and ns and ns[-1] == m.group(1):
             ns.pop()
             continue
-        m = re.match(r"\s*(?:@\[[^\]]*\]\s*)?(?:private\s+|protected\s+)?(?:noncomputable\s+)?theorem\s+([\w.'!?]+)", line)
+        if re.match(r"\s*(?:@\[[^\]]*\]\s*)?private\s", line):
+            continue
+        m = re.match(r"\s*(?:@\[[^\]]*\]\s*)?(?:protected\s+)?(?:noncomputable\s+)?theorem\s+([\w.'!?]+)", line)
         if m:
             names.append(".".join(ns + [m.group(1)]))
     return names
